@@ -81,6 +81,9 @@ def check_case(res: Res, p: dict, name: str, where: tuple[list, int], lay_seed: 
         del lst[i]
     file_text = main if fname == "t.s" else files[fname].rstrip("\n")
     flines = file_text.split("\n")
+    if line >= len(flines) or text not in flines[line]:
+        res.count("harness_bookkeeping_skipped")      # the insertion point could not be located in the rendered file: not a case
+        return
     if kind == "scan_eof":
         # cut the file right after the statement: no newline follows
         flines = flines[:line + 1]
